@@ -816,12 +816,28 @@ class Sim:
         return ChildOutcome(code, "", stderr)
 
     def _program_of(self, proc):
+        if proc.shell:
+            # a shell command is simulated as a sequence of builtin commands, one per line
+            actions = []
+            for line in proc.command.split("\n"):
+                line = line.strip()
+                if not line:
+                    continue
+                parts = shlex.split(line)
+                if parts[0] == "tr":
+                    k = parts.index("--")
+                    actions.append(["tr", parts[1], parts[2:k], parts[k + 1:]])
+                elif parts[0] == "cp":
+                    actions.append(["cp", parts[1], parts[2]])
+                elif parts[0] == "false":
+                    actions.append(["exit", 1])
+                elif parts[0] != "true":
+                    raise ScriptExit(127, f"shell command not simulated: {line}")
+            return actions
         try:
             parts = shlex.split(proc.command)
         except ValueError:
             raise ScriptExit(2, "unparsable command") from None
-        if proc.shell:
-            raise ScriptExit(127, "shell commands are not simulated")
         exe = parts[0]
         if exe.endswith(".py"):
             path = self.world.abspath(proc.rel(exe))
